@@ -26,7 +26,7 @@ from .. import core
 GENERATED = ["History"]
 
 FILES = {
-    "a.py": 'x = int(0)\ny = list()\nprint("")\nnames = ["a"]\nz = not not x\n',
+    "a.py": 'x = int(0)\ny = list()\nprint("")\nnames = ["a"]\nz = not not x\ndd = {"a": 1}\ng1 = dd.get("a", None)\ng2 = int("7", 10)\ng3 = dd.setdefault("k", None)\ng4 = round(1.5, 0)\n',
     "b.py": 'x = int(0)\nimport os\np = os.path.join("a", "b")\nq = [e for e in (1, 2)]\n',
     "c.py": (
         "from itertools import chain\n"
@@ -41,7 +41,9 @@ FILES = {
         "name = 'abc'\n"
         "if name.startswith('a'):\n    name = name[1:]\n"
     ),
-    "d.py": "v = 1\n",
+    # the same library call reached through differently shaped receivers in different files: whatever a check learns from one
+    # call (tables it fills in, nodes it annotates) must not change what it says about the other
+    "d.py": "v = 1\nh1 = dict(a=1).get(\"a\", None)\nh2 = int(\"7\", 10)\nh3 = {}.setdefault(\"k\", None)\n",
     "e.py": 'k = bool(True)  # noqa\nm = str("")  # noqa: FURB123\nn = int(1)\n',
     "sub/f.py": "def g(p):\n    with open(p) as fh:\n        return fh.read()\n",
 }
